@@ -126,6 +126,7 @@ double calcConvergence(dvector *t_new, dvector *t_old)
 void PCA(matrix *mx, int scaling, size_t npc, PCAMODEL* model, ssignal *s)
 {
   size_t i, j, pc;
+  size_t niter;
   dvector *t;
   dvector *t_old;
   dvector *p;
@@ -277,6 +278,7 @@ void PCA(matrix *mx, int scaling, size_t npc, PCAMODEL* model, ssignal *s)
 
       /* End Step 1 */
 
+      niter = 0;
       while(1){
         /* Step 2: projection of t' in E (t'*E) */
         DVectorSet(p, 0.f); /* the product accumulates into p */
@@ -324,7 +326,8 @@ void PCA(matrix *mx, int scaling, size_t npc, PCAMODEL* model, ssignal *s)
         if(libsci_verif_tick_hook != NULL)
           libsci_verif_tick_hook(0, pc, calcConvergence(t, t_old));
         #endif
-        if(calcConvergence(t, t_old) < PCACONVERGENCE){
+        niter++;
+        if(calcConvergence(t, t_old) < PCACONVERGENCE || niter >= PCAMAXITER){
           /* copy the loadings and score to the output data matrix */
           for(i = 0; i < t->size; i++){
             model->scores->data[i][pc] = t->data[i];
